@@ -484,6 +484,14 @@ def main():
         return 2
     run = Run(prop, tier, seed)
     lean_ok, lean_info = lean_prepare(prop)
+    if lean_ok and tier == 'thorough' and os.path.exists(os.path.join(LEAN, 'Sx', 'Props', prop + '.lean')):
+        # independent re-check of the compiled property module by the toolchain's leanchecker
+        r = sh(['lake', 'env', 'leanchecker', 'Sx.Props.' + prop], cwd=LEAN)
+        lean_info['leanchecker'] = 'ok' if r.returncode == 0 else (r.stdout + r.stderr)[-300:]
+        run.cov['leanchecker'] = lean_info['leanchecker'][:80]
+        if r.returncode != 0:
+            lean_ok = False
+            lean_info['broken'] = 'leanchecker rejects Sx.Props.%s: %s' % (prop, lean_info['leanchecker'])
     if not os.path.exists(SXMODEL):
         print('sxmodel missing and cannot be built: ' + str(lean_info.get('broken')))
         lean_ok = False
